@@ -24,7 +24,7 @@ CLAIM = {
             "the builders pass each value to the LDK CommitmentTransaction constructor parameter of the matching role "
             "(counterparty tx: broadcaster = counterparty; holder tx: broadcaster = holder), with "
             "INITIAL_COMMITMENT_NUMBER - n, and make_channel_parameters / htlcs_info2_to_oic fill same-named fields "
-            "(offered = true only for the offered list); (R4.5) both entry points use the same builder, and the protocol handler converts wire HTLCs to the validated content by truncating division (amount_msat / 1000) identically on both sides; (R4.6) the script decoder does not refuse the extreme delays the built-in policies allow; (R4.7) estimate_feerate_per_kw rounds up by linear form; (R4.8) the signature handed back is labelled with the sighash type it was made under: wherever the protocol layer takes the raw signature out of a core TypedSignature it also takes its type (a reply that hard-codes SIGHASH_ALL for an anchor channel's SINGLE|ANYONECANPAY signature does not verify against the BOLT-3 transaction). Does not "
+            "(offered = true only for the offered list); (R4.5) both entry points use the same builder, and the protocol handler converts wire HTLCs to the validated content by truncating division (amount_msat / 1000) identically on both sides; (R4.6) the script decoder does not refuse the extreme delays the built-in policies allow; (R4.7) estimate_feerate_per_kw rounds up by linear form; (R4.9) `the channel's own funding or HTLC key` across restarts: the signer object a restored channel signs with is derived from the same initial channel id, through the same derivation entry point and argument roles, as the one it was created and set up with (same obligations as C18 R18.2/R18.3); (R4.8) the signature handed back is labelled with the sighash type it was made under: wherever the protocol layer takes the raw signature out of a core TypedSignature it also takes its type (a reply that hard-codes SIGHASH_ALL for an anchor channel's SINGLE|ANYONECANPAY signature does not verify against the BOLT-3 transaction). Does not "
             "decide that decoder, recomposer and LDK agree on every byte string, nor equality of the two signatures.",
     "note": "LDK CommitmentTransaction / BuiltCommitmentTransaction semantics by name; parameter names of external "
             "functions read from crate metadata",
@@ -43,6 +43,7 @@ def run(ctx):
     r46(ctx)
     r47(ctx)
     r48(ctx)
+    r49(ctx)
 
 
 def _sign_sites(ctx, b):
@@ -558,3 +559,16 @@ def r48(ctx):
                "signature the returned (signature, sighash) pair does not verify against the BOLT-3 transaction",
                where=f"{b.file}:{getattr(lst[0][1], 'line', 0)}", sample=".sig and .typ read together")
     ctx.floor("R4.8", "protocol-layer functions that unpack a TypedSignature", n, 2)
+
+
+def r49(ctx):
+    """every signature is made "under the channel's own funding or HTLC key": the key material behind
+    `self.keys` is the same before and after a restart.  Same obligations as C18 R18.2 (argument roles of
+    InMemorySigner::new) and C18 R18.3 (creation and restore derive from the initial channel id, the persister returns it
+    under the storage key), evaluated here because a restored channel that signs with other keys returns signatures that
+    verify against no BOLT-3 transaction of this channel."""
+    from rules import C18 as _c18
+    from engine import report as _report
+    v = _report.renamed(ctx, {"R18.2": "R4.9", "R18.3": "R4.9"})
+    _c18.r182(v)
+    _c18.r183(v)
